@@ -9,7 +9,7 @@ M = "harness.parser"
 
 BLOCKS = [[], [["mass"]], [["rad"]], [["mass", "rad"]], [["rad", "mass"]], [["mass", "mass"]], [["mass"], ["mass"]], [["mass"], ["rad"]], [["rad", "mass"], ["rad"]]]
 FORMULAS_Q = [[["C", 1]], [["C", 2], ["H", 1]], [["H", 2], ["O", 1]], [["C", 1], ["Br", 1]], []]
-FORMULAS_T = FORMULAS_Q + [[["C", 1], ["H", 3], ["Cl", 1]], [["C", 11]], [["Cl", 2], ["Na", 1]], [["C", 2]]]
+FORMULAS_T = FORMULAS_Q + [[["C", 1], ["H", 3], ["Cl", 1]], [["C", 11]], [["Cl", 2], ["Na", 1]], [["C", 2]], [["C", 3]], [["C", 2], ["H", 2]], [["H", 1]], [["C", 1], ["H", 1], ["Br", 1], ["Cl", 1]]]
 
 
 def jobs(tier):
@@ -22,7 +22,7 @@ def jobs(tier):
             for bi, blocks in enumerate(BLOCKS):
                 if not t and nt == 2 and len(blocks) > 1:
                     continue
-                if t and nt == 3 and len(blocks) > 1:
+                if t and nt == 3 and len(blocks) > 1 and sum(c for _, c in f) > 3:
                     continue
                 n_atoms = sum(c for _, c in f)
                 if n_atoms > 4 and (nt > 1 or (nt == 1 and len(blocks) > 1)):
